@@ -41,6 +41,7 @@ func main() {
 		qlog      = flag.String("querylog", "", "prefix for solver query logs")
 		tags      = flag.String("tags", "verif", "build tags")
 		calibF    = flag.String("calib", "", "JSON file {fact: bool} measured natively (model calibration)")
+		stepprof  = flag.Bool("stepprof", false, "count interpreted instructions per function")
 		noslice   = flag.Bool("noslice", false, "disable independent-constraint slicing of queries")
 		only      = flag.String("only", "", "comma-separated label prefixes: assertions whose label starts with another 'Cnn:' prefix are not checked")
 	)
@@ -172,7 +173,7 @@ func main() {
 			continue
 		}
 		c := &Config{Unwind: *unwind, MaxSteps: *maxSteps, MapPermMax: *permMax, Solver: *solver,
-			TimeoutMs: *timeoutMs, Workers: *workers, MaxPaths: *maxPaths, QueryLog: *qlog, Concrete: conc, NoSlice: *noslice, Calib: calib}
+			TimeoutMs: *timeoutMs, Workers: *workers, MaxPaths: *maxPaths, QueryLog: *qlog, Concrete: conc, NoSlice: *noslice, Calib: calib, StepProf: *stepprof}
 		if *only != "" {
 			c.Only = strings.Split(*only, ",")
 		}
